@@ -197,14 +197,15 @@ Definition hyp_has_subst (c : tg_case) : bool :=
 Definition children_of (r : registry) (id : N) : list N :=
   match resolve r id with Some t => collect_children t | None => [] end.
 
-(** reachability as an iterated closure (independent of the DFS of the model) *)
+(** reachability as an iterated closure (independent of the DFS of the model); stops as soon as
+    an iteration adds nothing *)
 Fixpoint closure (n : nat) (r : registry) (set : list N) : list N :=
   match n with
   | O => set
   | S n' =>
       let next := fold_left (fun acc i => fold_left (fun acc c => if mem_N c acc then acc else c :: acc)
                                                     (children_of r i) acc) set set in
-      closure n' r next
+      if Nat.eqb (List.length next) (List.length set) then set else closure n' r next
   end.
 
 Definition first_with_path (r : registry) (p : list string) : option N :=
@@ -219,23 +220,28 @@ Definition tokset_eq (a b : list tokens) : bool := tokset_subset a b && tokset_s
 
 Definition uint_prims : list string := ["u8"; "u16"; "u32"; "u64"; "u128"].
 
-Definition expected_derives (r : registry) (s : settings) (p : list string) (it : pitem)
+(** for every recursive registration (key = exactly a registry path): the derives and the paths
+    of all entries reachable from the entries with that path *)
+Definition recursive_reach (r : registry) (s : settings) : list (derives * list (list string)) :=
+  flat_map (fun kd : tykey * derives =>
+              if String.eqb (k_key (fst kd)) (path_key (k_segs (fst kd))) then
+                let roots := flat_map (fun ie : N * (N * ty) =>
+                                         if path_eqb (t_path (snd (snd ie))) (k_segs (fst kd))
+                                         then [fst ie] else []) (combine (ids_of r) r) in
+                let reach := closure (List.length r) r roots in
+                [(snd kd, flat_map (fun i => match resolve r i with
+                                             | Some t => [t_path t]
+                                             | None => [] end) reach)]
+              else []) (dr_recursive (s_dreg s)).
+
+Definition expected_derives (r : registry) (s : settings) (rr : list (derives * list (list string)))
+  (p : list string) (it : pitem)
   : list tokens * list tokens :=
   let dr := s_dreg s in
   let key := path_key p in
   let spec := match kmap_get (dr_specific dr) key with Some d => d | None => derives_empty end in
-  let recs := flat_map (fun kd : tykey * derives =>
-                          (* the key must be exactly the path (no leading colon, no generics) *)
-                          if String.eqb (k_key (fst kd)) (path_key (k_segs (fst kd))) then
-                            let roots := flat_map (fun ie : N * (N * ty) =>
-                                                     if path_eqb (t_path (snd (snd ie))) (k_segs (fst kd))
-                                                     then [fst ie] else []) (combine (ids_of r) r) in
-                            let reach := closure (List.length r) r roots in
-                            if existsb (fun i => match resolve r i with
-                                                 | Some t => path_eqb (t_path t) p
-                                                 | None => false end) reach
-                            then [snd kd] else []
-                          else []) (dr_recursive dr) in
+  let recs := flat_map (fun dp : derives * list (list string) =>
+                          if existsb (path_eqb p) (snd dp) then [fst dp] else []) rr in
   let all := fold_left derives_union recs (derives_union (dr_default dr) spec) in
   let compact_as :=
     match s_compact_as s, first_with_path r p with
@@ -269,8 +275,9 @@ Definition prop_derives_exact (c : tg_case) : bool :=
       match parse_module toks with
       | None => false
       | Some m =>
+          let rr := recursive_reach r s in
           forallb (fun pit : list string * pitem =>
-                     let '(ed, ea) := expected_derives r s (fst pit) (snd pit) in
+                     let '(ed, ea) := expected_derives r s rr (fst pit) (snd pit) in
                      let od := derive_list (pi_attrs (snd pit)) in
                      let oa := map (fun a => "#" :: "[" :: a ++ ["]"])
                                    (filter (fun a => negb (attr_is "derive" a || attr_is "doc" a))
